@@ -468,6 +468,21 @@ impl Server {
         }
         Ok(())
     }
+
+    /// Performs one iteration of the server loop’s update sequence.
+    #[cfg(routinator_verif)]
+    pub fn verif_process_once(
+        config: &Config,
+        engine: &Engine,
+        history: &SharedHistory,
+        notify: &mut NotifySender,
+        exceptions: &LocalExceptions,
+        initial: bool,
+    ) -> Result<(), RunFailed> {
+        Self::process_once(
+            config, engine, history, notify, exceptions, initial
+        )
+    }
 }
 
 
